@@ -12,6 +12,8 @@ import (
 	"os"
 	"os/exec"
 	"path/filepath"
+	"sync"
+	"sync/atomic"
 
 	"github.com/iotaledger/iota.go/trinary"
 	"github.com/wollac/iota-crypto-demo/pkg/curl"
@@ -23,7 +25,7 @@ import (
 func init() {
 	fw.Register(&fw.Prop{
 		ID: "C20",
-		Rule: "bit-sliced states (2 x 729 words): uniform random words, all-zero, all-one, a single bit, a single word, every lane a valid trit state, lanes with the fourth code (0,0), lane-permuted copies (permuting lanes must commute with the permutation), states captured from real sponge use. Each state goes through the build-selected transform (assembly in the default build) on plain arrays, through the portable transform, through the build-selected transform with all four buffers inside guard-page arenas flush against the upper and then the lower guard (stray access = fault with the address as witness; canaries in the RW slack), and through a per-lane model: 81 rounds of the round function on 2-bit (l,h) codes with the 364/-365 walk, built from the boolean s-box formula and self-tested against the Curl-P truth table. All results must agree on all 2 x 729 words; digests of all results must be equal in the default and purego builds. " +
+		Rule: "bit-sliced states (2 x 729 words): uniform random words, all-zero, all-one, a single bit, a single word, every lane a valid trit state, lanes with the fourth code (0,0), lane-permuted copies (permuting lanes must commute with the permutation), states captured from real sponge use. Each state goes through the build-selected transform (assembly in the default build) on plain arrays, through the portable transform, through the build-selected transform with all four buffers inside guard-page arenas flush against the upper and then the lower guard (stray access = fault with the address as witness; canaries in the RW slack), and through a per-lane model: 81 rounds of the round function on 2-bit (l,h) codes with the 364/-365 walk, built from the boolean s-box formula and self-tested against the Curl-P truth table. All results must agree on all 2 x 729 words; concurrent: both permutations called from 8 goroutines at once on their own buffers must give the model's results; digests of all results must be equal in the default and purego builds. " +
 			"Non-trivial: distinct states other than all-zero / all-one.",
 		Assumptions: []string{"the routine has no data-dependent branch or address (loop counters are immediates), so one fenced execution per placement observes every access it can make", "the fence sees accesses within 1 MiB of a buffer", "amd64 only", "per-lane model in harness/prop/c20 (self-tested against the Curl-P truth table and the single-lane model of oracle/curlp)"},
 		Builds:      []string{"default", "purego", "386"},
@@ -34,7 +36,7 @@ func init() {
 			p := fw.Unpack(key)
 			return map[string]interface{}{"state_style": styles[p[0][0]], "state_seed": fw.GetU64(p[1])}
 		},
-		Required: []string{"fenced executions (upper placement)", "fenced executions (lower placement)", "lanes modelled", "three-way agreement", "lane permutation checked"},
+		Required: []string{"fenced executions (upper placement)", "fenced executions (lower placement)", "lanes modelled", "three-way agreement", "lane permutation checked", "concurrent executions"},
 		Post: func(r *fw.RunResult) {
 			if r.Tier == "thorough" || os.Getenv("VERIF_ASMTRACE") == "1" {
 				asmTrace(r)
@@ -255,8 +257,62 @@ func diff(a, b *state) string {
 	return ""
 }
 
+// judgeConcurrent: both permutations are called from 8 goroutines at once, each on its own buffers;
+// the results must be the ones the per-lane model gives for each state.
+func judgeConcurrent(seed uint64, o *fw.Obs) {
+	o.Nontrivial()
+	const nStates = 4
+	ins := make([]*state, nStates)
+	wants := make([]*state, nStates)
+	for i := range ins {
+		ins[i] = makeState(byte([]int{0, 5, 6, 8}[i]), seed+uint64(i))
+		wants[i] = model(ins[i])
+	}
+	o.Add("lanes modelled", nStates*lanes)
+	const G = 8
+	var wg sync.WaitGroup
+	var bad atomic.Value
+	for g := 0; g < G; g++ {
+		wg.Add(1)
+		go func(g int) {
+			defer wg.Done()
+			defer func() {
+				if x := recover(); x != nil {
+					bad.Store(fmt.Sprintf("panic in a concurrent call: %v", x))
+				}
+			}()
+			var out state
+			for n := 0; n < 60 && bad.Load() == nil; n++ {
+				k := (n + g) % nStates
+				l, h := ins[k].l, ins[k].h
+				which := "build-selected transform"
+				if (n+g)%2 == 0 {
+					curl.VerifTransform(&out.l, &out.h, &l, &h)
+				} else {
+					which = "portable transform"
+					curl.VerifTransformGeneric(&out.l, &out.h, &l, &h)
+				}
+				if d := diff(&out, wants[k]); d != "" {
+					bad.Store(fmt.Sprintf("with %d goroutines transforming their own buffers at once, the %s differs from the definition: %s", G, which, d))
+					return
+				}
+			}
+		}(g)
+	}
+	wg.Wait()
+	if b := bad.Load(); b != nil {
+		o.Fail("concurrent", "%s", b.(string))
+		return
+	}
+	o.Count("concurrent executions")
+}
+
 func judge(class string, key []byte, o *fw.Obs) {
 	p := fw.Unpack(key)
+	if class == "concurrent" {
+		judgeConcurrent(fw.GetU64(p[1]), o)
+		return
+	}
 	style, seed := p[0][0], fw.GetU64(p[1])
 	in := makeState(style, seed)
 	if style != 1 && style != 2 {
@@ -323,6 +379,9 @@ func judge(class string, key []byte, o *fw.Obs) {
 }
 
 func gen(g *fw.Gen) {
+	for n := g.ShareOf(32, 1600); n > 0; n-- {
+		g.Emit("concurrent", fw.Pack([]byte{0}, fw.U64(g.Rng.Uint64())))
+	}
 	for n := g.ShareOf(4000, 60000); n > 0; n-- {
 		style := byte(g.Rng.Intn(len(styles)))
 		if style == 1 || style == 2 {
